@@ -14,7 +14,7 @@ from vf import common
 from vf.jobs import JobSpec, all_dags
 
 PROP = "C16"
-VARIANTS = ("plain", "multiout", "multiedge", "reversed")
+VARIANTS = ("plain", "multiout", "multiedge", "reversed", "dupparam")
 
 
 def make_spec(n: int, es: list, variant: str) -> JobSpec:
@@ -27,7 +27,11 @@ def make_spec(n: int, es: list, variant: str) -> JobSpec:
         tasks[f"t{i}"] = {"outs": ["a", "b"] if variant in ("multiout", "multiedge") else ["0"], "ps": {}, "kw": {}}
     pos = {j: 0 for j in range(n)}
     for k, (i, j) in enumerate(es):
-        if variant == "multiedge":
+        if variant == "dupparam":  # one dataset feeds two parameters of the same consumer
+            edges.append((f"t{i}", "0", f"t{j}", pos[j]))
+            edges.append((f"t{i}", "0", f"t{j}", f"kw{i}"))
+            pos[j] += 1
+        elif variant == "multiedge":
             edges.append((f"t{i}", "a", f"t{j}", pos[j]))
             edges.append((f"t{i}", "b", f"t{j}", pos[j] + 1))
             pos[j] += 2
@@ -128,7 +132,7 @@ def cases(ctx):
     for n in range(1, maxn + 1):
         for es in all_dags(n):
             for v in VARIANTS:
-                if n == 6 and v in ("multiedge", "reversed") and len(es) > 9:
+                if n == 6 and v in ("multiedge", "reversed", "dupparam") and len(es) > 9:
                     continue  # thorough: dense 6-node DAGs only in two variants (cost)
                 out.append((n, es, v))
     return out
